@@ -715,7 +715,13 @@ itv_separator(vbi_decoder *vbi, struct caption *cc, char c)
 
 	ITV_DEBUG(printf("ITV: <%s>\n", cc->itv_buf));
 
+	/* May send a VBI_EVENT_TRIGGER. Like caption_send_event() this
+	   permits calling vbi_fetch_cc_page() from the handler. */
+	pthread_mutex_unlock(&cc->mutex);
+
 	vbi_atvef_trigger(vbi, cc->itv_buf);
+
+	pthread_mutex_lock(&cc->mutex);
 }
 
 /*
